@@ -3,7 +3,9 @@
    ValidateInputSignatures, validatePartialSignature, getHashAndScriptForSignature,
    verifyScriptForPubKey, with address.GetScriptType, payment.FromScript (StP2WPKH
    branch) and btcd's txscript.DisasmString (v0.24 tokenizer, one-line form).
-   Every unchecked Go index / nil expression yields VPanic <site>.
+   Follows /repo after the fixes a910e27 and 9415d49 (previous-tx id equality in v0, prevout
+   amount in the P2WPKH branch, bounds and empty-signature checks, redeem / witness script
+   commitments).  Every remaining unchecked Go index / nil expression yields VPanic <site>.
    The signature hash, DER and public-key parsing, HASH160 and ECDSA verification are
    Section variables (instantiated by oracle tables / the executable HASH160 in K).
    Definitions only. *)
@@ -14,10 +16,7 @@ Open Scope N_scope.
 Inductive vsite :=
 | VPInputIndex      (* p.Inputs[inputIndex] *)
 | VPSigNil          (* v0: nil *psbt.PartialSig element dereferenced *)
-| VPSigEmpty        (* Signature[len-1] on an empty signature *)
 | VPTxInputIndex    (* v0: p.UnsignedTx.Inputs[inputIndex] *)
-| VPPrevOutIndex    (* NonWitnessUtxo.Outputs[prevoutIndex] *)
-| VPWitUtxoNil      (* input.WitnessUtxo.Value with WitnessUtxo == nil (non-witness StP2WPKH branch) *)
 | VPScriptEmpty     (* GetScriptType: script[0] on an empty script *)
 | VPScriptShort     (* GetScriptType: script[2:] on a one-byte script starting with OP_0 *)
 | VPDigestIndex.    (* HashForWitnessV0: tx.Inputs[inIndex] *)
@@ -410,6 +409,24 @@ Inductive valgo := VLegacy | VSegwitV0.
 
 Definition vs_opt (o : option bytes) : bytes := match o with Some b => b | None => [] end.
 
+(* the strict script forms tested by isRedeemScriptOf / isWitnessScriptOf:
+   23 bytes OP_HASH160 OP_DATA_20 <20> OP_EQUAL; 34 bytes OP_0 OP_DATA_32 <32> *)
+Definition vs_p2sh_prog (s : bytes) : option bytes :=
+  match s with
+  | a :: b :: r =>
+      if (n8 a =? 0xa9) && (n8 b =? 0x14) && (length r =? 21)%nat && bytes_eqb (skipn 20 r) [x87]
+      then Some (firstn 20 r) else None
+  | _ => None
+  end.
+Definition vs_p2wsh_prog (s : bytes) : option bytes :=
+  match s with
+  | a :: b :: r => if (n8 a =? 0) && (n8 b =? 0x20) && (length r =? 32)%nat then Some r else None
+  | _ => None
+  end.
+(* isWitnessScriptOf(witnessScript, program) *)
+Definition vs_is_witness_of (ws program : bytes) : bool :=
+  match vs_p2wsh_prog program with Some prog => bytes_eqb (sha256 ws) prog | None => false end.
+
 Section Validate.
   (* HashForSignature / HashForWitnessV0 (tx, input index, script code, amount, hash type) *)
   Variable digest : valgo -> tx -> nat -> bytes -> bytes -> N -> bytes.
@@ -432,11 +449,20 @@ Section Validate.
         end
     end.
 
-  (* v0: bytes.Compare(prevoutHash, utxoHash) == 1 is the error; v2: !bytes.Equal *)
-  Definition vs_prev_id_ok (v : vver) (prevout_hash utxo_hash : bytes) : bool :=
-    match v with
-    | VsV0 => match vs_compare prevout_hash utxo_hash with Gt => false | _ => true end
-    | VsV2 => bytes_eqb prevout_hash utxo_hash
+  (* !bytes.Equal(prevoutHash, utxoHash) is the error (v0 and v2) *)
+  Definition vs_prev_id_ok (prevout_hash utxo_hash : bytes) : bool :=
+    bytes_eqb prevout_hash utxo_hash.
+
+  (* isRedeemScriptOf(redeem, spent) *)
+  Definition vs_is_redeem_of (redeem spent : bytes) : bool :=
+    match vs_p2sh_prog spent with Some prog => bytes_eqb (hash160 redeem) prog | None => false end.
+
+  (* the script that is classified: the redeem script if present and committed to by the
+     spent script, else the spent script *)
+  Definition vs_pick_script (inp : vinput) (spent : bytes) : vres bytes :=
+    match svi_redeem inp with
+    | Some r => if vs_is_redeem_of r spent then VOk r else VErr
+    | None => VOk spent
     end.
 
   Definition vs_digest_v0 (p : vpacket) (i : nat) (script amount : bytes) (ht : N) : vres bytes :=
@@ -450,39 +476,37 @@ Section Validate.
     match svi_nonwit inp with
     | Some prev =>
         op <-- vs_outpoint v p i inp ;;;
-        if negb (vs_prev_id_ok v (fst op) (txid prev)) then VErr else
-        if lenL (t_outs prev) <=? snd op then VPanic VPPrevOutIndex else
+        if negb (vs_prev_id_ok (fst op) (txid prev)) then VErr else
+        if lenL (t_outs prev) <=? snd op then VErr else
         match nth_error (t_outs prev) (N.to_nat (snd op)) with
-        | None => VPanic VPPrevOutIndex
+        | None => VErr                                   (* unreachable: bound checked above *)
         | Some prevout =>
-            let script := match svi_redeem inp with Some r => r | None => o_script prevout end in
+            script <-- vs_pick_script inp (o_script prevout) ;;;
             ty <-- vs_script_type script ;;;
             match ty with
             | StP2WSH =>
                 match svi_witscript inp with
                 | None => VErr
                 | Some ws =>
+                    if negb (vs_is_witness_of ws script) then VErr else
                     d <-- vs_digest_v0 p i ws (o_value prevout) ht ;;; VOk (d, ws)
                 end
             | StP2WPKH =>
-                match svi_wit inp with
-                | None => VPanic VPWitUtxoNil
-                | Some w =>
-                    d <-- vs_digest_v0 p i (vs_p2pkh_code (skipn 2 script)) (o_value w) ht ;;; VOk (d, script)
-                end
+                d <-- vs_digest_v0 p i (vs_p2pkh_code (skipn 2 script)) (o_value prevout) ht ;;; VOk (d, script)
             | _ => VOk (digest VLegacy (svp_tx p) i script [] ht, script)
             end
         end
     | None =>
         match svi_wit inp with
         | Some w =>
-            let script := match svi_redeem inp with Some r => r | None => o_script w end in
+            script <-- vs_pick_script inp (o_script w) ;;;
             ty <-- vs_script_type script ;;;
             match ty with
             | StP2WPKH =>
                 d <-- vs_digest_v0 p i (vs_p2pkh_code (skipn 2 script)) (o_value w) ht ;;; VOk (d, script)
             | StP2WSH =>
                 let ws := vs_opt (svi_witscript inp) in
+                if negb (vs_is_witness_of ws script) then VErr else
                 d <-- vs_digest_v0 p i ws (o_value w) ht ;;; VOk (d, ws)
             | _ => VErr
             end
@@ -520,7 +544,7 @@ Section Validate.
         if vs_pub_missing v s then VErr else
         let pub := vs_opt (svg_pub s) in
         match rev (svg_sig s) with
-        | [] => VPanic VPSigEmpty
+        | [] => VErr                                   (* empty partial signature *)
         | last :: rder =>
             let ht := n8 last in
             let der := rev rder in
